@@ -213,6 +213,20 @@ def array_part(ob):
                 ob.check(f"numpy/mixed-spelling/element{cid}", ok_el)
                 ob.check(f"numpy/mixed-spelling/coordinate-subview-element{cid}", ok_sub)
                 ob.check(f"numpy/mixed-spelling/flavor{cid}", isinstance(arr, vector.Momentum) == any(c != n for c, n in zip(combo, names)))
+                # slice assignment from an array spelled this way into a momentum array spelled the canonical momentum way (and vice versa)
+                data2 = {n: data[n] * 2.0 + 0.125 for n in names}
+                rhs = np.empty(3, dtype=[(c, np.float64) for c in combo])         # plain records whose columns carry these spellings
+                for c, n in zip(combo, names):
+                    rhs[c] = data2[n]
+                tgt = vector.array({mm: data[nn].copy() for mm, nn in zip(mnames, names)})
+                tgt[1:] = rhs[1:]
+                ok_set = all(np.array_equal(np.asarray(getattr(tgt, n))[1:], data2[n][1:]) and np.asarray(getattr(tgt, n))[0] == data[n][0] for n in names)
+                ob.check(f"numpy/mixed-spelling/slice-assignment-from{cid}", ok_set, {n: np.asarray(getattr(tgt, n)).tolist() for n in names})
+                tgt2 = vector.array({c: data[n].copy() for c, n in zip(combo, names)})
+                src2 = vector.array({mm: data2[nn] for mm, nn in zip(mnames, names)})
+                tgt2[:2] = src2[:2]
+                ok_set2 = all(np.array_equal(np.asarray(getattr(tgt2, n))[:2], data2[n][:2]) and np.asarray(getattr(tgt2, n))[2] == data[n][2] for n in names)
+                ob.check(f"numpy/mixed-spelling/slice-assignment-into{cid}", ok_set2, {n: np.asarray(getattr(tgt2, n)).tolist() for n in names})
             except Exception as e:
                 ob.check(f"numpy/mixed-spelling{cid}", False, f"{type(e).__name__}: {str(e)[:150]}")
         if ak is not None:
